@@ -16,7 +16,7 @@ import (
 func init() {
 	core.Register(&core.Monitor{
 		ID:        "C02",
-		Technique: "reference-model monitor (exact rational longitudes/altitudes, closed-form inverse Mercator with truncation tolerance) + round-trip and shared-face relations between calls",
+		Technique: "reference-model monitor (exact rational longitudes/altitudes, closed-form inverse Mercator with truncation tolerance) + round-trip and shared-face relations between calls + concurrent scenarios (4-64 goroutines issuing the same judged calls at once) + hostile scheduler widths",
 		Rule: "per case: a valid ID (h,v uniform in 0..35 with emphasis on 0,1,35; x,y uniform plus first/last row and column; f of both signs plus -2^v and 2^v-1), both notations and both options. " +
 			"Oracle: 8 corners in the order NW,NE,SE,SW bottom then top with lon = 360x/2^h-180 (4 ulp), lat = atan(sinh(pi(1-2y/2^h))) cut toward zero at 1e-10 deg (tolerance 1.2e-10), alt = f*2^(25-v) exact; " +
 			"centre = midpoint; centre -> ID at the same zooms returns the ID exactly; two random interior points (25 % margin) map back to the ID; east(x)==west(x+1) (+-180 identified at the wrap), south(y)==north(y+1), top(f)==bottom(f+1) compared bitwise on the returned floats. " +
